@@ -203,6 +203,35 @@ def netClauses (c : NetCase) : List (String × Bool) :=
         let calls := c.obs.map (fun b => ((b[i]?).map (·.calls)).getD [])
         ((([] : View) :: states).zip (states.zip calls)).all (fun p => trackerCovers p.1 p.2.1 p.2.2))) ]
 
+/-! ### the topic validator, called directly
+
+"Any two peers that trust each other …": an update counts only when its AUTHOR (the peer that signed
+it) is trusted by the receiver at the moment it arrives — the replica itself, a peer it was told to
+trust and not told to distrust since, or anybody under `trust_all`. Who forwarded it is irrelevant. -/
+
+inductive ValEv where
+  | trust (p : Nat) | distrust (p : Nat)
+  | msg (signer forwarder : Nat) (accepted : Bool)
+  deriving Repr
+
+structure ValCase where
+  trustAll : Bool
+  self : Nat
+  evs : List ValEv
+  deriving Repr
+
+/-- (trusted set so far, verdicts that contradict the text) -/
+def valScan (c : ValCase) : List Nat × List (Bool × Bool) :=
+  c.evs.foldl (fun acc e => match e with
+    | .trust p => (p :: acc.1, acc.2)
+    | .distrust p => (acc.1.filter (· != p), acc.2)
+    | .msg s _ a => (acc.1, acc.2 ++ [(c.trustAll || s == c.self || acc.1.contains s, a)])) ([], [])
+
+def valClauses (c : ValCase) : List (String × Bool) :=
+  let vs := (valScan c).2
+  [ ("untrusted_ignored", vs.all (fun v => v.1 || !v.2)),
+    ("trusted_heard", vs.all (fun v => !v.1 || v.2)) ]
+
 def holds (cl : List (String × Bool)) : Bool := cl.all (·.2)
 
 end CV.C02
